@@ -205,7 +205,7 @@ def oracle (st : St) (a : AuthRes) (ad : AuthDesc) (rt : Route) (segs : List Str
 
 /-- The full-strength login predicate on an observed successful login: the identity logged in is a
 configured user whose own stored hash matches the password sent. -/
-def loginOracle (st : St) (name pw : String) (status : Nat) (ows : List String) : List String :=
+def loginOracle (st : St) (pw : String) (status : Nat) (ows : List String) : List String :=
   if status != 200 then [] else
   match (kv? ows "id").bind unhex with
   | some id =>
@@ -218,7 +218,6 @@ def loginOracle (st : St) (name pw : String) (status : Nat) (ows : List String) 
        | Option.none => ["login_role"])
     | Option.none => ["login_identity"]
   | Option.none => ["login_identity"]
-  where _unused := name
 
 def authKind (a : AuthRes) (ad : AuthDesc) (cfg : Config) : String :=
   match a, ad with
@@ -259,7 +258,7 @@ def stepReq (st : St) (ws ows : List String) : St × String :=
             | _ => Option.none
           let (lr, sess2) := loginConfigFile st.normF st.cfg sess1 basic
           let orc := match ad with
-            | .basic n p => loginOracle st n p status ows
+            | .basic _ p => loginOracle st p status ows
             | _ => if status == 200 then ["login_identity"] else []
           let o := if orc.isEmpty then "" else " ORACLE " ++ " ".intercalate orc
           match lr with
@@ -290,6 +289,16 @@ def stepReq (st : St) (ws ows : List String) : St × String :=
             if status == 403 then (st1, "ok login:denied")
             else if !orc.isEmpty then (st1, fail "oracle" (" ".intercalate orc))
             else (st1, fail "model" s!"login expected 403 observed status={status}")
+        else if isLoginRow rt then
+          -- admin-token provider as primary: the bearer token must be the admin token
+          match loginAdmin st.cfg ad.header with
+          | .ok _ _ _ =>
+            if status == 200 then (st1, "ok login:admin-token") else
+              (st1, fail "model" s!"login expected 200 observed status={status}")
+          | _ =>
+            if status == 401 then (st1, "ok login:admin-token-invalid")
+            else if status == 200 then (st1, fail "oracle" "login_identity")
+            else (st1, fail "model" s!"login expected 401 observed status={status}")
         else
         let st2 := if isLogoutRow rt && st.cfg.authType == .configFile
           then { st1 with sess := logoutConfigFile st.cfg sess1 ad.header } else st1
@@ -302,7 +311,7 @@ def stepReq (st : St) (ws ows : List String) : St × String :=
             out != .served || sortStr (parseList l) == sortStr (listingShown a rt (parseList all))
           | _, _ => true
         let actorOk := match kv? ows "actor" with
-          | some act => out != .served || act == a.actor
+          | some act => out != .served || act == a.auditName
           | Option.none => true
         if !orc.isEmpty then
           (st2, fail "oracle" (" ".intercalate orc ++ s!" (status={status} model={showOutcome out} auth={kind})"))
@@ -311,7 +320,7 @@ def stepReq (st : St) (ws ows : List String) : St × String :=
         else if !listOk then
           (st2, fail "model" s!"listing differs: expected {listingShown a rt (parseList ((kv? ows "all").getD "-"))}")
         else if !actorOk then
-          (st2, fail "model" s!"actor differs: expected {a.actor}")
+          (st2, fail "model" s!"actor differs: expected {a.auditName}")
         else
           (st2, s!"ok req:{area}/{showOutcome out}/{kind}")
     | _, _, _, _ => (st, "bad-op unparsable-req")
